@@ -161,7 +161,8 @@ def pm_cover_rules(ck, P, rule="R-COVER-PM"):
             okr = start_ok and end_ok and bool(inc) and sum_ok
         ck.check(okr, rule, b["q"] + "|runs", "every id tile_id + i, 0 <= i < run_length, is included", "run-length expansion does not include every addressed id", ir.loc(b))
         def has(cs, suffix):
-            return any(c is not None and c[0].endswith(suffix) and c[1] == ">" and c[2] == "0" for c in cs)
+            # the decision is "zero or not" on an unsigned quantity: `x > 0`, `x != 0`, and the complementary guard `x == 0` split alike
+            return any(c is not None and c[0].endswith(suffix) and c[1] in (">", "!=", "==", "<=") and c[2] == "0" for c in cs)
         conds = [ir.cmp_norm(n["c"]) for n in ir.walk_nodes(b["body"]) if n.get("k") == "if"]
         ck.check(has(conds, ".range.length") and has(conds, ".run_length"), rule, b["q"] + "|branches",
                  "entries with length > 0 are visited; run_length > 0 means tiles, otherwise a leaf directory (as in the lookup)", "branch conditions are %s" % conds, ir.loc(b))
